@@ -196,7 +196,49 @@ TrCall ==
   /\ UNCHANGED <<cfg, seg>>
   /\ l' = l + 1
 
-TrNext == TrSegInit \/ TrCall
+\* ------------------------------------------------------------ fault injection (C20)
+\* One event = one operation executed while the k-th call into a wrapped base filesystem returned an
+\* I/O error (all k up to the number of calls of the fault-free run).  Success is only acceptable with
+\* the full fault-free effect and value; a failing operation may leave a partial effect but the
+\* namespace must stay a tree, nothing may panic, lower overlay layers stay untouched, and observers
+\* never change anything.
+ObsOps == {"exists", "is_dir", "is_file", "metadata", "read_dir", "walk_dir", "read_to_string"}
+ObsValOK(e, t) ==
+  LET k == Kind(t, e.p) IN
+  CASE e.op = "exists"  -> e.res.v = <<k # "none">>
+    [] e.op = "is_dir"  -> e.res.v = <<k = "dir">>
+    [] e.op = "is_file" -> e.res.v = <<k = "file">>
+    [] e.op = "metadata" -> k # "none" /\ e.res.v = <<k, Len(Data(t, e.p))>>
+    [] e.op = "read_dir" -> k = "dir" /\ SeqIsSet(e.res.v, ChildNames(t, e.p))
+    [] e.op = "walk_dir" -> k = "dir" /\ SeqIsSet(e.res.v, Desc(t, e.p))      \* complete and duplicate-free (an Err item makes the class an error)
+    [] e.op = "read_to_string" -> k = "file" /\ Utf8(Data(t, e.p)) /\ e.res.v = Data(t, e.p)
+    [] OTHER -> TRUE
+TrFault ==
+  /\ IsEv("fcall")
+  /\ LET e == Rec[l]
+         o == e.obs
+         isobs == e.op \in ObsOps
+         r == IF isobs THEN Ok(world) ELSE Apply(CallRec(e), world, CfgRec)
+         bad == (IF e.res.c # "panic" /\ NoPanicObs(o) THEN {} ELSE {"nopanic"})
+                \cup (IF e.res.c = "ok" /\ ~isobs /\ "ok" \notin r.allowed THEN {"fault_success"} ELSE {})
+                \cup (IF e.res.c = "ok" /\ ~isobs /\ "ok" \in r.allowed /\ r.regime = "spec" /\ ~ObsMatches(o, r.t) THEN {"fault_partial"} ELSE {})
+                \cup (IF e.res.c = "ok" /\ ~isobs /\ e.op = "copy_dir" /\ r.regime = "spec" /\ e.res.val # r.val THEN {"fault_value"} ELSE {})
+                \cup (IF e.res.c = "ok" /\ isobs /\ ~ObsValOK(e, world) THEN {"fault_value"} ELSE {})
+                \cup (IF isobs /\ ~ObsMatches(o, world) THEN {"fault_observer_effect"} ELSE {})
+                \cup (IF WellFormedObs(o) THEN {} ELSE {"wellformed"})
+                \cup (IF cfg.kind = "ovl" /\ "layers" \in DOMAIN e /\ lay # <<>>
+                        /\ ~(\A i \in DOMAIN e.layers : i > 1 => LayerCore(e.layers[i]) = LayerCore(lay[i])) THEN {"lower"} ELSE {}) IN
+     /\ world' = TreeOfObs(o)
+     /\ tainted' = TRUE           \* one faulted operation per segment
+     /\ IF bad = {} THEN TRUE
+        ELSE Report("VIOL", [l |-> l, seg |-> seg, secondary |-> tainted, conjs |-> bad,
+                             sig |-> [conj |-> CHOOSE c \in bad : TRUE, op |-> e.op, kind |-> cfg.kind, cfg |-> cfg.name, fault |-> TRUE,
+                                      target |-> KindS(world, e.p), method |-> e.method, got |-> e.res.c, k |-> e.k, n |-> e.n,
+                                      regime |-> r.regime, where |-> Where(e.p)]])
+  /\ UNCHANGED <<cfg, seg, lay, outs, twinsync>>
+  /\ l' = l + 1
+
+TrNext == TrSegInit \/ TrCall \/ TrFault
 TrSpec == TrInit /\ [][TrNext]_vars
 
 \* the whole trace must have been consumed (a malformed event is a tool error, not a violation)
